@@ -65,7 +65,11 @@ class Ctx:
             self.reach.setdefault(c, False)
 
     def new_engine(self, pre=(), max_paths=200000):
-        return set_engine(Engine(pre=pre, max_paths=max_paths, stats=self.stats))
+        eng = set_engine(Engine(pre=pre, max_paths=max_paths, stats=self.stats))
+        # stop exploring a job once it has produced several counterexamples outside the known findings
+        # (a violation verdict needs no exhaustive exploration; a pass does, and is never cut short)
+        eng.stop_fn = lambda: getattr(self, 'new_violations', 0) >= 6
+        return eng
 
     # ---- obligations
     def obligation(self, eng, pc, ob, extract, regions=None, label='', what=''):
@@ -76,6 +80,9 @@ class Ctx:
             return True
         regions = regions or {}
         active = {k: r for k, r in regions.items() if k in self.known}
+        if not active:
+            self.add_witness(None, extract(m), label, what)
+            return False
         neg = [z3.Not(ob)]
         for k, r in active.items():
             mk = eng.solve(pc, neg + [r])
@@ -101,6 +108,8 @@ class Ctx:
         return False
 
     def add_witness(self, finding, witness, label='', what=''):
+        if finding is None:
+            self.new_violations = getattr(self, 'new_violations', 0) + 1
         key = json.dumps([finding, label], sort_keys=True)
         n = sum(1 for w in self.witnesses if w['key'] == key)
         if n >= 3:               # keep a few witnesses per (finding, label)
@@ -120,7 +129,12 @@ class Ctx:
         else:
             mp = multiprocessing.get_context('fork')
             with mp.Pool(procs) as pool:
-                results = pool.map(_job_wrapper, [(fn, self, j) for j in jobs], chunksize=1)
+                budget = int(os.environ.get('VERIF_JOB_TIMEOUT', 14400 if self.tier == 'thorough' else 1800))
+                try:
+                    results = pool.map_async(_job_wrapper, [(fn, self, j) for j in jobs], chunksize=1).get(timeout=budget)
+                except multiprocessing.TimeoutError:
+                    pool.terminate()
+                    raise HarnessError("exploration did not finish within %d s (inconclusive)" % budget)
         out = []
         for r in results:
             if r.get('error'):
